@@ -1,0 +1,6 @@
+//go:build !verif
+// +build !verif
+
+package isaacdatabase
+
+func verifPoolGate(string, ...interface{}) {}
